@@ -51,6 +51,18 @@ fn worlds() -> Vec<Items> {
         vec![(TypeId::Ordinal(1), 0, vec![5, 6]), (TypeId::Ordinal(1), 1, vec![7, 8])],
         vec![(TypeId::Ordinal(1), 0, vec![7, 8]), (TypeId::Ordinal(1), 1, vec![5, 6])],
         vec![(TypeId::Ordinal(1), 0, vec![5, 6]), (TypeId::Ordinal(1), 2, vec![7, 8])],
+        // 9, 10, 11: ids, type ids and values on both sides of every length boundary of the
+        // variable-length integer code the deltas are written in (6, 13, 20, 27 bits)
+        // (9 and 10 keep the values small: a checksum only covers values, so a damaged id or
+        // type id is not noticed by it)
+        vec![(TypeId::Ordinal(1), 8192, vec![5, 6]), (TypeId::Ordinal(64), 63, vec![1]), (TypeId::Ordinal(0x3fff), 16383, vec![2])],
+        vec![(TypeId::Ordinal(1), 8192, vec![5, 7]), (TypeId::Ordinal(64), 64, vec![1]), (TypeId::Uuid(u1()), 16383, vec![3]), (TypeId::Ordinal(0x2000), 8191, vec![2])],
+        vec![
+            (TypeId::Ordinal(1), 8193, vec![8192, -8193]),
+            (TypeId::Ordinal(2), 8193, vec![16383, 16384, -16384]),
+            (TypeId::Ordinal(8192), 0, vec![i32::MIN, i32::MAX, 64, -65, 1 << 20, -(1 << 20) - 1, 1 << 27, -(1 << 27) - 1]),
+            (TypeId::Ordinal(63), 16384, vec![8191, -8192]),
+        ],
     ]
 }
 
@@ -477,6 +489,7 @@ fn main() {
             Cfg { worlds: vec![1, 4], ticks: 2, drops: 1, dups: 1, acks: 2, cap: 4, send_empty: false },
             Cfg { worlds: vec![0, 2, 3, 5], ticks: 3, drops: 1, dups: 0, acks: 2, cap: 4, send_empty: false },
             Cfg { worlds: vec![6, 7, 8], ticks: 3, drops: 0, dups: 1, acks: 2, cap: 4, send_empty: false },
+            Cfg { worlds: vec![9, 10, 11], ticks: 3, drops: 1, dups: 0, acks: 2, cap: 4, send_empty: false },
             Cfg { worlds: vec![1, 2, 0], ticks: 3, drops: 1, dups: 0, acks: 2, cap: 4, send_empty: true },
             Cfg { worlds: vec![1, 2], ticks: 4, drops: 0, dups: 0, acks: 3, cap: 4, send_empty: true },
         ],
@@ -487,6 +500,7 @@ fn main() {
             Cfg { worlds: vec![1, 4], ticks: 4, drops: 1, dups: 1, acks: 2, cap: 4, send_empty: false },
             Cfg { worlds: vec![6, 7, 8], ticks: 4, drops: 0, dups: 1, acks: 3, cap: 4, send_empty: false },
             Cfg { worlds: vec![1, 6, 7], ticks: 4, drops: 1, dups: 0, acks: 3, cap: 4, send_empty: false },
+            Cfg { worlds: vec![9, 10, 11], ticks: 4, drops: 1, dups: 0, acks: 3, cap: 4, send_empty: false },
             Cfg { worlds: vec![1, 2, 0], ticks: 4, drops: 1, dups: 0, acks: 3, cap: 4, send_empty: true },
             Cfg { worlds: vec![1, 2, 0], ticks: 4, drops: 0, dups: 1, acks: 3, cap: 4, send_empty: true },
         ],
@@ -631,7 +645,7 @@ fn main() {
     run.assume("the state key of the real Storage/Manager objects is the hash of the complete history of operations applied to each (they are deterministic functions of it); states are therefore merged only when both objects have identical histories and the channels/budgets agree - an over-fine key, which costs states but cannot hide any");
     run.assume("the sender follows the storage API exactly as server/src/main.rs does (new_builder, add, finish, add_snap, Delta::write, delta_chunks); the receiver acknowledges ack_tick() or -1; in the empty-when-unchanged configurations a delta without deletions and updates is announced with the data-less SnapEmpty message");
     run.finish(
-        "explicit-state exploration (stateright, breadth-first at the quick tier, depth-first at the thorough tier) of a real sender Storage and a real receiver Manager joined by lossy/duplicating/reordering channels for snapshot messages and acknowledgements; worlds include ordinal items, two UUID types of different sizes a 300-word item that forces a multi-part transfer, and three different worlds with equal checksums; whenever the receiver accepts a tick its snapshot equals the sender's through items() and item(type,id); on error the acknowledged tick does not move to that tick; nothing panics; plus linear histories of 101..250 snapshots delivered in order with acknowledgements never / regularly / once (the stores on both sides hold 100 snapshots)",
+        "explicit-state exploration (stateright, breadth-first at the quick tier, depth-first at the thorough tier) of a real sender Storage and a real receiver Manager joined by lossy/duplicating/reordering channels for snapshot messages and acknowledgements; worlds include ordinal items, two UUID types of different sizes a 300-word item that forces a multi-part transfer, three different worlds with equal checksums, and three worlds whose ids, type ids and values sit on both sides of every length boundary of the variable-length integer code; whenever the receiver accepts a tick its snapshot equals the sender's through items() and item(type,id); on error the acknowledged tick does not move to that tick; nothing panics; plus linear histories of 101..250 snapshots delivered in order with acknowledgements never / regularly / once (the stores on both sides hold 100 snapshots)",
         true,
     );
 }
